@@ -588,11 +588,17 @@ func (s *seqRT) forCase(fc forCase, roles *sigRoles) {
 			}
 		}
 	}
+	firstRunsConform := true
+	for _, f := range finals {
+		if _, _, okc := conformFor(observable(f.Events[len(st.Events):]), fc, roles); !okc {
+			firstRunsConform = false
+		}
+	}
 	// re-run: the Seq value returned by the constructor may be run again (nested
 	// loops, Start called twice on one term); each run must start from scratch.
 	reruns := 0
 	for _, f := range append([]*State(nil), finals...) {
-		if reruns >= 12 || f.Truncated {
+		if reruns >= 12 || f.Truncated || !firstRunsConform {
 			continue
 		}
 		evs := observable(f.Events[len(st.Events):])
